@@ -118,7 +118,7 @@ def classValue (env : Env) (e : Elem) : Except Fail (Option GoStr) :=
       | .cls => c.lit
       | .attrEscapedValue => unquote c.lit
       | _ => []
-    .ok (some (joinWithSep [32] names))      -- spliced into the literal as is (not escaped: finding C04)
+    .ok (some (htmlEscape (joinWithSep [32] names)))
   else do
     let args ← classToks.foldlM (fun (acc : List Val) c =>
       match c.typ with
@@ -286,19 +286,26 @@ structure RenderObs where
   err : Option Fail
   writes : List GoStr
 
-/-- render template `name` of the file (top-level call: fresh context, no children) -/
-def renderTop (input : GoStr) (name : GoStr) (env : Env) : RenderObs :=
+/-- the templates of a file (`none`: the file does not parse) -/
+def progOf (input : GoStr) : Option (List Tmpl) :=
   let (toks, _) := lexBytes input
   let (err, tree, _) := parseToks toks
   match err with
-  | some _ => { err := some (.model "parse error"), writes := [] }
-  | none =>
-    let prog := templatesOf tree
+  | some _ => none
+  | none => some (templatesOf tree)
+
+/-- render template `name` of a parsed file (top-level call: fresh context, no children) -/
+def renderProg (prog : Option (List Tmpl)) (name : GoStr) (env : Env) : RenderObs :=
+  match prog with
+  | none => { err := some (.model "parse error"), writes := [] }
+  | some prog =>
     match prog.find? (·.name == name) with
     | none => { err := some (.model "no such template"), writes := [] }
     | some t =>
       match execKids 100000 { prog := prog, env := env, own := none } t.kids [] with
       | .ok buf => { err := none, writes := [erase (flattenBuf buf)] }   -- exactly one Write, of the erased buffer
       | .error e => { err := some e, writes := [] }                      -- nothing reaches the destination
+
+def renderTop (input : GoStr) (name : GoStr) (env : Env) : RenderObs := renderProg (progOf input) name env
 
 end GL
